@@ -74,13 +74,19 @@ StepsOf(shs) == LET RECURSIVE S(_)
 \* target scripts: all OK / transport failure at arrival k / status 418 at arrival k
 Script(kind, at) == [kind |-> kind, at |-> at]
 \* (quick: failure positions 1..5 only)
-ScriptsFor(steps) == {Script("ok", 0)} \cup {Script(kd, k) : kd \in {"transport", "status", "trunc"}, k \in 1..(steps + 1)}
-\* quick: failure positions 1..5, truncated bodies at positions 1..2
+\* "eof": the target reads the whole request (headers and body; GET and POST steps alike) and closes the connection
+\* cleanly without a single response byte.  It acts on a FRESH connection (the answer to arrival k-1 says
+\* Connection: close), where net/http itself never re-sends - a second arrival of the step could only come from pandora.
+\* (On a REUSED connection net/http legitimately re-sends an idempotent request; that history is not in the space.)
+ScriptKinds == {"transport", "status", "trunc", "eof"}
+ScriptsFor(steps) == {Script("ok", 0)} \cup {Script(kd, k) : kd \in ScriptKinds, k \in 1..(steps + 1)}
+\* quick: failure positions 1..5; truncated bodies and clean closes at positions 1..2
 ScriptsLvl(steps, lvl) == IF lvl = 0
-                          THEN {sc \in ScriptsFor(IF steps > 4 THEN 4 ELSE steps) : sc.kind = "trunc" => sc.at <= 2}
+                          THEN {sc \in ScriptsFor(IF steps > 4 THEN 4 ELSE steps) : sc.kind \in {"trunc", "eof"} => sc.at <= 2}
                           ELSE ScriptsFor(steps)
 ScriptCode(sc) == IF sc.kind = "ok" THEN 0
-                  ELSE (CASE sc.kind = "transport" -> 0 [] sc.kind = "status" -> 13 [] sc.kind = "trunc" -> 26) + sc.at
+                  ELSE (CASE sc.kind = "transport" -> 0 [] sc.kind = "status" -> 13 [] sc.kind = "trunc" -> 26
+                          [] sc.kind = "eof" -> 39) + sc.at
 
 \* lvl 0 (quick): all shapes for one listed request, 4 / 2 representative shapes for lists of 2 / 3
 \* lvl 1 (thorough): all shapes for lists of 1 and 2, multiplicities and sleeps separately for lists of 3
@@ -97,7 +103,7 @@ StructCode(shs) == LET RECURSIVE C(_)
                    IN C(Len(shs))
 
 FlowCase(f, nsi, shs, sc) ==
-    [id |-> ((f * 8 + nsi) * 2400 + StructCode(shs)) * 41 + ScriptCode(sc),
+    [id |-> ((f * 8 + nsi) * 2400 + StructCode(shs)) * 67 + ScriptCode(sc),
      fam |-> "flow", reqs |-> Flows[f],
      scens |-> << [name |-> "s1", weight |-> 1, items |-> ItemsOf(NameSeqs[nsi], shs)] >>,
      rows |-> 3, idx |-> 7, shots |-> 2, script |-> sc]
@@ -120,7 +126,7 @@ RingLen(ws) == Len(RingOf(RingScens(ws)))
 WsCode(ws) == LET RECURSIVE C(_)
                   C(p) == IF p = 0 THEN 0 ELSE C(p - 1) * 6 + WCode(ws[p])
               IN C(Len(ws))
-RingCase(ws) == [id |-> 9000000 + WsCode(ws), fam |-> "ring", reqs |-> PlainReqs, scens |-> RingScens(ws),
+RingCase(ws) == [id |-> 20000000 + WsCode(ws), fam |-> "ring", reqs |-> PlainReqs, scens |-> RingScens(ws),
                  rows |-> 3, idx |-> 7, shots |-> 2 * RingLen(ws), script |-> Script("ok", 0)]
 RingInit == \E n \in 1..3 : \E ws \in [1..n -> Weights] : st = InitSt(RingCase(ws))
 
@@ -128,7 +134,7 @@ RingInit == \E n \in 1..3 : \E ws \in [1..n -> Weights] : st = InitSt(RingCase(w
 IterScens(w1, w2) == << [name |-> "s1", weight |-> w1, items |-> <<ReqItem("a", 1, 0), ReqItem("b", 2, 0)>>],
                         [name |-> "s2", weight |-> w2, items |-> <<ReqItem("a", 2, 0)>>] >>
 IterCase(w1, w2) ==
-    [id |-> 9100000 + (w1 * 10 + w2), fam |-> "iter",
+    [id |-> 20100000 + (w1 * 10 + w2), fam |-> "iter",
      reqs |-> [a |-> RDef(PreM("next", "users"), Use("pre", "a", "uri"), "none", FALSE),
                b |-> RDef(PreM("next", "users"), Use("pre", "b", "hdr"), "none", TRUE),
                c |-> RDef(NoPre, NoUse, "none", FALSE)],
@@ -138,13 +144,13 @@ IterInit == \E w1 \in {1, 2, 3}, w2 \in {1, 2} : st = InitSt(IterCase(w1, w2))
 
 \* several instances: [next] under every interleaving (design level, NInst = 2) and on the real engine (M1, 4 instances)
 NextCase(rows, shots) ==
-    [id |-> 9200000 + rows * 100 + shots, fam |-> "next",
+    [id |-> 20200000 + rows * 100 + shots, fam |-> "next",
      reqs |-> [a |-> RDef(PreM("next", "users"), Use("pre", "a", "uri"), "none", FALSE),
                b |-> RDef(PreM("next", "items"), Use("pre", "b", "hdr"), "none", FALSE),
                c |-> RDef(PreM("next", "users"), Use("pre", "c", "body"), "none", FALSE)],
      scens |-> << [name |-> "s1", weight |-> 1, items |-> <<ReqItem("a", 2, 0), ReqItem("b", 1, 0), ReqItem("c", 1, 0)>>] >>,
      rows |-> rows, idx |-> 7, shots |-> shots, script |-> Script("ok", 0)]
-SmallNextCase(shots) == [NextCase(2, shots) EXCEPT !.id = 9300000 + shots,
+SmallNextCase(shots) == [NextCase(2, shots) EXCEPT !.id = 20300000 + shots,
                             !.scens = << [name |-> "s1", weight |-> 1, items |-> <<ReqItem("a", 1, 0), ReqItem("c", 2, 0)>>] >>]
 NextInit == \E n \in 1..3 : st = InitSt(SmallNextCase(n))
 \* the order of log and samples does not influence the future: explore one representative per length
@@ -155,7 +161,7 @@ NextBigInit == \E rows \in {1, 2, 3, 5}, shots \in {7, 12} : st = InitSt(NextCas
 \* spin barrier (through the gun's pluggable Preprocessor interface), so the 8 instances make the FIRST [next] look-up of
 \* the path users (step a) resp. items (step b) on a fresh iterator at the same instant.  Replayed many times per run.
 FirstCase(rows) ==
-    [id |-> 9400000 + rows, fam |-> "first",
+    [id |-> 20400000 + rows, fam |-> "first",
      reqs |-> [a |-> RDef(PreM("next", "users"), Use("pre", "a", "uri"), "none", FALSE),
                b |-> RDef(PreM("next", "items"), Use("pre", "b", "hdr"), "none", FALSE),
                c |-> RDef(NoPre, NoUse, "none", FALSE)],
